@@ -61,6 +61,16 @@ def generate(rng, tier, boost):
         enc = W.ser_tx(t)
         if len(enc) < 3000 or k % 10 == 0:
             cases += deser_cases(rng, 102, t, enc, big, 48 if not big else 120)
+        if len(enc) < 3000 and k % 3 == 0:
+            # the segwit marker / flag bytes: every flag value other than 1 after a 00 marker, a marker
+            # in front of a legacy body, a flag without witness data
+            if len(enc) > 6 and enc[4] == 0 and enc[5] == 1:
+                for f in (0, 2, 0x80, 0xff):
+                    cases.append((102, [t, enc[:5] + bytes([f]) + enc[6:], rng.randrange(2)]))
+                cases.append((102, [t, enc[:4] + enc[6:], rng.randrange(2)]))          # marker+flag dropped, witness kept
+            else:
+                for f in (0, 1, 2, 0xff):
+                    cases.append((102, [t, enc[:4] + b'\x00' + bytes([f]) + enc[4:], rng.randrange(2)]))
     # boundary sweep: every field at every boundary, one at a time
     base = W.rand_tx(rng, nin=1, nout=1, witness='none')
     for v in W.BOUND_I32:
@@ -90,7 +100,7 @@ def generate(rng, tier, boost):
             cases.append((102, [t, enc, 0]))
             cases.append((102, [t, enc[:-1], 0]))
             cases.append((102, [t, enc[:len(enc) // 2], 1]))
-    for n in [252, 253, 254] + ([0xffff, 0x10000] if big else []):
+    for n in [252, 253, 254] + ([0xffff, 0x10000] if (tier == 'thorough' and not boost) else []):
         t = W.rand_tx(rng, nin=n, nout=1, witness='none')
         cases.append((101, [t, 1])); cases.append((102, [t, W.ser_tx(t), 0]))
     for n in [0, 1, 252, 253, 0xffff, 0x10000, 0xffffffff, 0x100000000, (1 << 64) - 1]:
